@@ -63,7 +63,7 @@ struct SaveWorld : World {
         k.assign(1, prop == "C13" ? (kr.chance(0.5) ? 2 : kr.below(2)) : kr.below(3)); const AppDesc &d = app_desc((int)k[0]); auto &P = *d.params;
         size_t focus0 = pr.below(P.size()), focusn = 3 + pr.below(8);
         bool allow_char_zero = pr.chance(0.1);   // the trigger of a known finding is constructed in 10 % of the runs only, so that it cannot mask other failures
-        int n = 1 + (int)pr.below(prop == "C13" ? 18 : 24); bool faults = prop == "C12" && pr.chance(0.5);
+        int n = 1 + (int)pr.below(prop == "C13" ? 18 : (g_tier ? 60 : 24)); bool faults = prop == "C12" && pr.chance(0.5);
         for (int i = 0; i < n; i++) {
             Op o;
             if (pr.chance(0.1)) { // fill an array with a constant run or an arithmetic sequence (the printer compresses those into ranges)
@@ -131,7 +131,7 @@ struct SaveWorld : World {
                     bool present = addrs.count(pp.addr) > 0;
                     if (reach && differs && !present) { snprintf(b, sizeof b, "op %d: %s differs from its default (%s vs %s) but has no line in the savefile:\n%s", opi, pp.addr.c_str(), pp.get(cur->obj, 0).str().c_str(), pp.dflt(cur->obj, 0).str().c_str(), text.substr(0, 400).c_str()); fail("SAVE-MISSING", b); }
                     if (present && !(reach && differs)) { snprintf(b, sizeof b, "op %d: %s equals its default (%s) %s but the savefile has a line for it:\n%s", opi, pp.addr.c_str(), pp.dflt(cur->obj, 0).str().c_str(), reach ? "" : "(and lies in a disabled sub-tree)", text.substr(0, 400).c_str()); fail("SAVE-NOT-MINIMAL", b); }
-                    if (present) { if (pp.type == 'f') stat_add(P_FLOAT_LINE); if (pp.type == 'T') stat_add(P_TOGGLE_LINE); if (pp.type == 'o') stat_add(P_OPTION_LINE); if (pp.elems > 1) stat_add(P_ARRAY_LINE); if (pp.addr.find('/', 1) != std::string::npos) stat_add(pp.addr.compare(0, 4, "/fx/") ? P_SUBTREE_LINE : P_PTR_SUBTREE_LINE);
+                    if (present) { if (pp.type == 'f') stat_add(P_FLOAT_LINE); if (pp.type == 'T') stat_add(P_TOGGLE_LINE); if (pp.type == 'o') stat_add(P_OPTION_LINE); if (pp.elems > 1) stat_add(P_ARRAY_LINE); if (pp.addr.find('/', 1) != std::string::npos) stat_add((pp.addr.compare(0, 4, "/fx/") && pp.addr.compare(0, 6, "/bank/")) ? P_SUBTREE_LINE : P_PTR_SUBTREE_LINE);
                         if ((pp.type == 'i' && pp.get(cur->obj, 0).i < 0) || (pp.type == 'f' && pp.get(cur->obj, 0).f < 0)) stat_add(P_NEG_VALUE); if (pp.type == 's' && pp.get(cur->obj, 0).s.find_first_of("\"'%\\\n") != std::string::npos) stat_add(P_STRING_SPECIAL);
                         if (pp.addr == "/preset") stat_add(P_PRESET_NONZERO); }
                     if (!reach && differs) stat_add(P_PRUNED);
@@ -197,7 +197,7 @@ struct SaveWorld : World {
                     else { stat_add(P_PERM_SAMPLED); Rng r((uint64_t)op.a[2] + ls.size()); for (int t = 0; t < 200; t++) { for (size_t i = ord.size(); i > 1; i--) std::swap(ord[i - 1], ord[r.below(i)]); if (!one(ord)) return; } }
                 };
                 note("permuting lines"); sweep(lines, "all lines present");
-                static const char *providers[] = {"/preset", "/Poscenabled", "/Pvoices", "/Pfx", "/mode", "/units0/bank", "/units0/kind", "/units0/gain", "/units0/width", "/units0/enabled", "/units0/unison", "/units0/type", "/units0/lfo_shape", "/units1/bank", "/units1/kind", "/units1/type", "/units1/lfo_shape", "/units1/enabled", "/units1/unison"}; bool dep = false;
+                static const char *providers[] = {"/preset", "/Poscenabled", "/Pvoices", "/Pfx", "/Pbank", "/mode", "/units0/bank", "/units0/kind", "/units0/gain", "/units0/width", "/units0/enabled", "/units0/unison", "/units0/type", "/units0/lfo_shape", "/units1/bank", "/units1/kind", "/units1/type", "/units1/lfo_shape", "/units1/enabled", "/units1/unison"}; bool dep = false;
                 for (size_t i = 0; i < lines.size() && res.cls.empty(); i++) { std::string a = lines[i].substr(0, lines[i].find(' ')); bool prov = false; for (auto pv : providers) if (a == pv) prov = true; if (!prov) continue; dep = true;
                     std::vector<std::string> ls = lines; ls.erase(ls.begin() + i); if (ls.size() >= 2) { stat_add(F_DEP_LINE_DELETED); sweep(ls, ("line " + a + " deleted").c_str()); } }
                 if (dep) stat_add(P_DEP_ORDER_MATTERED);
